@@ -503,7 +503,7 @@ def identity_cells():
 def plan(tier, seed, scale):
     K = 16
     tasks = [{"name": "matrix-%d" % i, "kind": "matrix", "i": i, "k": K} for i in range(K)]
-    total = int((8000 if tier == "quick" else 60000) * scale)
+    total = int((8000 if tier == "quick" else 200000) * scale)
     for i in range(K):
         tasks.append({"name": "rand-%d" % i, "kind": "rand", "n": max(total // K, 5), "shard": i,
                       "depth": 3 if tier == "quick" else 4})
